@@ -507,13 +507,39 @@ theorem sound_runImport {cfg : Cfg} {fs : FS} {rec : Runner} (hrec : RecSound re
       obtain ⟨inv', rel'⟩ := sound_loadModule hrec hnone hl1 hlm inv1
       exact ⟨inv', rel1.trans rel'⟩
 
+theorem sound_rootValue {cfg : Cfg} {fs : FS} {rec : Runner} (hrec : RecSound rec) {fr : Frame}
+    {m : Ref} {s s' : St} {r : Except Err V}
+    (h : rootValue cfg fs rec fr m s = some (r, s')) : Sound s s' := by
+  unfold rootValue at h
+  split at h
+  · simp only [Option.some.injEq, Prod.mk.injEq] at h; rw [← h.2]; exact Sound.refl s
+  · exact sound_runImport hrec h
+
 theorem sound_importRoot {cfg : Cfg} {fs : FS} {rec : Runner} (hrec : RecSound rec) {fr : Frame}
     {m : Ref} {s s' : St} {r : Except Err V}
     (h : importRoot cfg fs rec fr m s = some (r, s')) : Sound s s' := by
   unfold importRoot at h
   split at h
-  · simp only [Option.some.injEq, Prod.mk.injEq] at h; rw [← h.2]; exact Sound.refl s
-  · exact sound_runImport hrec h
+  · cases h
+  · rename_i hr
+    simp only [Option.some.injEq, Prod.mk.injEq] at h; rw [← h.2]; exact sound_rootValue hrec hr
+  · rename_i hr
+    simp only [Option.some.injEq, Prod.mk.injEq] at h; rw [← h.2]; exact sound_rootValue hrec hr
+
+theorem sound_wildRoot {cfg : Cfg} {fs : FS} {rec : Runner} (hrec : RecSound rec) {fr : Frame}
+    {m : Ref} {s s' : St} {r : Except Err V}
+    (h : wildRoot cfg fs rec fr m s = some (r, s')) : Sound s s' := by
+  unfold wildRoot at h
+  split at h
+  · split at h
+    · simp only [Option.some.injEq, Prod.mk.injEq] at h; rw [← h.2]; exact Sound.refl s
+    · exact sound_runImport hrec h
+  · split at h
+    · cases h
+    · rename_i hr
+      simp only [Option.some.injEq, Prod.mk.injEq] at h; rw [← h.2]; exact sound_importRoot hrec hr
+    · rename_i hr
+      simp only [Option.some.injEq, Prod.mk.injEq] at h; rw [← h.2]; exact sound_importRoot hrec hr
 
 theorem sound_importItems {cfg : Cfg} {fs : FS} {rec : Runner} (hrec : RecSound rec)
     (items : List Item) : ∀ {fr fr' : Frame} {s s' : St} {r : Option Err},
@@ -668,14 +694,7 @@ theorem sound_execAct {cfg : Cfg} {fs : FS} {rec : Runner} (hrec : RecSound rec)
   · -- from … import *
     rename_i m
     have hroot : ∀ {r1 : Except Err V} {s1 : St},
-        (match (if m.str then none else lookup m.name fr.locals) with
-          | some v => some (importValue v, s)
-          | none => runImport cfg fs rec fr m s) = some (r1, s1) → Sound s s1 := by
-      intro r1 s1 hh
-      split at hh
-      · simp only [Option.some.injEq, Prod.mk.injEq] at hh; rw [← hh.2]; exact Sound.refl s
-      · exact sound_runImport hrec hh
-    dsimp only at h
+        wildRoot cfg fs rec fr m s = some (r1, s1) → Sound s s1 := fun hh => sound_wildRoot hrec hh
     split at h
     · cases h
     · rename_i hir
@@ -695,6 +714,10 @@ theorem sound_execAct {cfg : Cfg} {fs : FS} {rec : Runner} (hrec : RecSound rec)
     · rename_i hir
       simp only [Option.some.injEq, Prod.mk.injEq] at h; rw [← h.2.2]
       exact sound_runImport hrec hir
+  · -- guarded show
+    split at h
+    · simp only [Option.some.injEq, Prod.mk.injEq] at h; rw [← h.2.2]; exact sound_emit_obs _ rfl s
+    · simp only [Option.some.injEq, Prod.mk.injEq] at h; rw [← h.2.2]; exact sound_emit_obs _ rfl s
   · -- throw
     simp only [Option.some.injEq, Prod.mk.injEq] at h; rw [← h.2.2]; exact Sound.refl s
   · -- (multi-)assignment with patterns
@@ -946,10 +969,33 @@ theorem runImport_exports {cfg : Cfg} {fs : FS} {rec : Runner} {fr : Frame} {nam
 
 theorem importRoot_exports {cfg : Cfg} {fs : FS} {rec : Runner} {fr : Frame} {m : Ref} {s s' : St}
     {r : Except Err V} (h : importRoot cfg fs rec fr m s = some (r, s')) : s'.exports = s.exports := by
+  have hrv : ∀ {r1 : Except Err V} {s1 : St}, rootValue cfg fs rec fr m s = some (r1, s1) → s1.exports = s.exports := by
+    intro r1 s1 hh
+    unfold rootValue at hh
+    split at hh
+    · simp only [Option.some.injEq, Prod.mk.injEq] at hh; rw [← hh.2]
+    · exact runImport_exports hh
   unfold importRoot at h
   split at h
-  · simp only [Option.some.injEq, Prod.mk.injEq] at h; rw [← h.2]
-  · exact runImport_exports h
+  · cases h
+  · rename_i hr
+    simp only [Option.some.injEq, Prod.mk.injEq] at h; rw [← h.2]; exact hrv hr
+  · rename_i hr
+    simp only [Option.some.injEq, Prod.mk.injEq] at h; rw [← h.2]; exact hrv hr
+
+theorem wildRoot_exports {cfg : Cfg} {fs : FS} {rec : Runner} {fr : Frame} {m : Ref} {s s' : St}
+    {r : Except Err V} (h : wildRoot cfg fs rec fr m s = some (r, s')) : s'.exports = s.exports := by
+  unfold wildRoot at h
+  split at h
+  · split at h
+    · simp only [Option.some.injEq, Prod.mk.injEq] at h; rw [← h.2]
+    · exact runImport_exports h
+  · split at h
+    · cases h
+    · rename_i hr
+      simp only [Option.some.injEq, Prod.mk.injEq] at h; rw [← h.2]; exact importRoot_exports hr
+    · rename_i hr
+      simp only [Option.some.injEq, Prod.mk.injEq] at h; rw [← h.2]; exact importRoot_exports hr
 
 /-- does the statement (possibly) write the exports entry `k`? `et` = export_top_level_ids is active -/
 def touches (al sa et : Bool) (k : Name) : Act → Bool
@@ -986,8 +1032,10 @@ theorem exportIf_lookup_ne (b : Bool) (k k2 : Name) (v : V) (s : St) (hne : b = 
 
 theorem bind_exportTop (k : Name) (v : V) (fr : Frame) : (bind k v fr).exportTop = fr.exportTop := rfl
 
-theorem addWild_exportTop (v : V) (fr : Frame) : (addWild v fr).exportTop = fr.exportTop := by
-  unfold addWild; split <;> rfl
+theorem addWild_exportTop (b : Bool) (v : V) (fr : Frame) : (addWild b v fr).exportTop = fr.exportTop := by
+  unfold addWild; split
+  · split <;> rfl
+  · rfl
 
 theorem bindItem_exportTop (it : Item) (v : V) (fr : Frame) : (bindItem it v fr).exportTop = fr.exportTop := by
   unfold bindItem; split <;> rfl
@@ -1211,14 +1259,7 @@ theorem execAct_keeps {cfg : Cfg} {fs : FS} {rec : Runner} {a : Act} {fr fr' : F
   · rename_i m
     have het : fr.exportTop = false := by simpa [touches] using ht
     have hroot : ∀ {r1 : Except Err V} {s1 : St},
-        (match (if m.str then none else lookup m.name fr.locals) with
-          | some v => some (importValue v, s)
-          | none => runImport cfg fs rec fr m s) = some (r1, s1) → s1.exports = s.exports := by
-      intro r1 s1 hh
-      split at hh
-      · simp only [Option.some.injEq, Prod.mk.injEq] at hh; rw [← hh.2]
-      · exact runImport_exports hh
-    dsimp only at h
+        wildRoot cfg fs rec fr m s = some (r1, s1) → s1.exports = s.exports := fun hh => wildRoot_exports hh
     split at h
     · cases h
     · rename_i hir
@@ -1238,6 +1279,9 @@ theorem execAct_keeps {cfg : Cfg} {fs : FS} {rec : Runner} {a : Act} {fr fr' : F
     · rename_i hir
       simp only [Option.some.injEq, Prod.mk.injEq] at h; rw [← h.2.2, ← h.2.1, runImport_exports hir]
       exact ⟨rfl, rfl⟩
+  · split at h
+    · simp only [Option.some.injEq, Prod.mk.injEq] at h; rw [← h.2.2, ← h.2.1]; exact ⟨rfl, rfl⟩
+    · simp only [Option.some.injEq, Prod.mk.injEq] at h; rw [← h.2.2, ← h.2.1]; exact ⟨rfl, rfl⟩
   · simp only [Option.some.injEq, Prod.mk.injEq] at h; rw [← h.2.2, ← h.2.1]; exact ⟨rfl, rfl⟩
   · split at h
     · simp only [Option.some.injEq, Prod.mk.injEq] at h; rw [← h.2.2, ← h.2.1]; exact ⟨rfl, rfl⟩
@@ -1420,8 +1464,7 @@ theorem execAct_exportTop {cfg : Cfg} {fs : FS} {rec : Runner} {a : Act} {fr fr'
     · simp only [Option.some.injEq, Prod.mk.injEq] at h; rw [← h.2.1]
     · simp only [Option.some.injEq] at h
       exact fromItems_exportTop _ _ _ _ h
-  · dsimp only at h
-    split at h
+  · split at h
     · cases h
     · simp only [Option.some.injEq, Prod.mk.injEq] at h; rw [← h.2.1]
     · split at h
@@ -1430,6 +1473,9 @@ theorem execAct_exportTop {cfg : Cfg} {fs : FS} {rec : Runner} {a : Act} {fr fr'
       · simp only [Option.some.injEq, Prod.mk.injEq] at h; rw [← h.2.1, addWild_exportTop]
   · split at h
     · cases h
+    · simp only [Option.some.injEq, Prod.mk.injEq] at h; rw [← h.2.1]
+    · simp only [Option.some.injEq, Prod.mk.injEq] at h; rw [← h.2.1]
+  · split at h
     · simp only [Option.some.injEq, Prod.mk.injEq] at h; rw [← h.2.1]
     · simp only [Option.some.injEq, Prod.mk.injEq] at h; rw [← h.2.1]
   · simp only [Option.some.injEq, Prod.mk.injEq] at h; rw [← h.2.1]
